@@ -22,6 +22,33 @@ mod tests;
 
 pub use status::{Status, StatusCode};
 
+/// verif hooks: a gate called after a handler has looked its request up in its snapshot and before
+/// the proof is built, so that a harness can change the chain in between the way a concurrent chain
+/// service would.
+#[cfg(feature = "verif-hooks")]
+pub mod verif {
+    use std::sync::Mutex;
+
+    type Gate = Box<dyn FnMut() + Send>;
+    static GATE: Mutex<Option<Gate>> = Mutex::new(None);
+
+    /// Install (or remove) the gate
+    pub fn set_gate(gate: Option<Gate>) {
+        *GATE.lock().expect("lock") = gate;
+    }
+
+    pub(crate) fn gate() {
+        let taken = GATE.lock().expect("lock").take();
+        if let Some(mut g) = taken {
+            g();
+            let mut slot = GATE.lock().expect("lock");
+            if slot.is_none() {
+                *slot = Some(g);
+            }
+        }
+    }
+}
+
 /// Light client protocol handler.
 pub struct LightClientProtocol {
     /// Sync shared state.
@@ -192,6 +219,8 @@ impl LightClientProtocol {
         <T as Entity>::Builder: ProverMessageBuilder,
         <<T as Entity>::Builder as Builder>::Entity: Into<packed::LightClientMessageUnion>,
     {
+        #[cfg(feature = "verif-hooks")]
+        verif::gate();
         let (parent_chain_root, proof) = if last_block.is_genesis() {
             // The genesis block has no ancestors: there is no parent chain root, and nothing can
             // be proved against it.
